@@ -25,7 +25,7 @@ type (
 		Bool *bool
 		Str  *string
 	}
-	CSel   struct {
+	CSel struct {
 		X    CExpr
 		Name string
 	}
@@ -194,20 +194,6 @@ func (p *cparser) parseImpl() CExpr {
 
 // cond := or [ '?' impl ':' impl ]
 func (p *cparser) parseCond() CExpr {
-	if c := p.cur(); c.tok == token.IDENT && (c.lit == "forall" || c.lit == "exists") && p.peek(1).tok == token.IDENT && p.peek(2).tok == token.IDENT && p.peek(2).lit == "in" {
-		p.i++
-		v := p.next().lit
-		p.i++ // in
-		p.expect(token.LBRACK)
-		lo := p.parseImpl()
-		p.expect(token.COMMA)
-		hi := p.parseImpl()
-		p.expect(token.RPAREN)
-		p.expect(token.COLON)
-		p.expect(token.COLON)
-		body := p.parseImpl()
-		return &CQuant{c.lit == "forall", v, lo, hi, body}
-	}
 	c := p.parseBin(1)
 	if p.isIllegalQ() {
 		p.i++
@@ -325,6 +311,20 @@ func (p *cparser) parsePrimary() CExpr {
 			return &CConv{ty, x}
 		}
 	case token.IDENT:
+		if c := p.cur(); c.tok == token.IDENT && (c.lit == "forall" || c.lit == "exists") && p.peek(1).tok == token.IDENT && p.peek(2).tok == token.IDENT && p.peek(2).lit == "in" {
+			p.i++
+			v := p.next().lit
+			p.i++ // in
+			p.expect(token.LBRACK)
+			lo := p.parseImpl()
+			p.expect(token.COMMA)
+			hi := p.parseImpl()
+			p.expect(token.RPAREN)
+			p.expect(token.COLON)
+			p.expect(token.COLON)
+			body := p.parseImpl()
+			return &CQuant{c.lit == "forall", v, lo, hi, body}
+		}
 		p.i++
 		switch t.lit {
 		case "true", "false":
